@@ -332,6 +332,18 @@ func (c *Conn) notifyW() {
 	}
 }
 
+// PendingToMosn is the number of bytes the peer has sent that MOSN has not read yet
+// (still in the simulated network or delivered but unread).
+func (c *Conn) PendingToMosn() int {
+	c.mu.Lock()
+	defer c.mu.Unlock()
+	n := len(c.rx)
+	for _, sg := range c.p2m {
+		n += len(sg.data)
+	}
+	return n
+}
+
 func (c *Conn) String() string { return fmt.Sprintf("c%d(%s,%s)", c.ID, c.Role, c.Tag) }
 
 // ---- Listener ----
